@@ -1387,12 +1387,12 @@ class Py2Cpp(ITranspiler):
 
 	def on_factor(self, node: defs.Factor, operator: str, value: str) -> str:
 		# XXX 単項演算子の連続(`--a`等)はC++ではインクリメント/デクリメントと解釈されるため、括弧で分離
-		_value = f'({value})' if node.value.is_a(defs.Factor) else value
+		_value = f'({value})' if node.value.is_a(defs.Factor) or (node.value.is_a(defs.FuncCall) and ' ? ' in value) else value
 		return self.render(node, 'operation/unary_operator', vars={'operator': operator, 'value': _value})
 
 	def on_not_compare(self, node: defs.NotCompare, operator: str, value: str) -> str:
 		# XXX Pythonのnotは比較・ビット演算より優先順位が低いが、C++の`!`は最優先のため、演算子を含む式は括弧で保護
-		_value = f'({value})' if node.value.is_a(defs.Operator) else value
+		_value = f'({value})' if node.value.is_a(defs.Operator) or (node.value.is_a(defs.FuncCall) and ' ? ' in value) else value
 		return self.render(node, 'operation/unary_operator', vars={'operator': '!', 'value': _value})
 
 	def on_or_compare(self, node: defs.OrCompare, elements: list[str]) -> str:
@@ -1427,6 +1427,8 @@ class Py2Cpp(ITranspiler):
 
 	def proc_binary_operation(self, node: defs.BinaryOperator, elements: list[str]) -> str:
 		node_of_elements = node.elements
+		# XXX 条件演算子として出力される関数呼び出し(dict.get等)は、C++では他の演算子より優先順位が低いため、オペランドとしては括弧で保護
+		elements = [f'({element})' if index % 2 == 0 and isinstance(node_of_elements[index], defs.FuncCall) and ' ? ' in element else element for index, element in enumerate(elements)]
 
 		# インデックスを算出
 		operator_indexs = range(1, len(node_of_elements), 2)
